@@ -7,7 +7,7 @@ the universal theorems `lift_correct_*` are about a Lean mirror of the lifter; w
 from the mirror's IL for the same word, this tool asks z3 whether the two are SEMANTICALLY equal.  z3 and this encoder are
 part of the trusted base of that tie (and are cross-checked against the Lean IL model by tools/il_equiv_selftest.sh).
 
-    il_equiv.py [--jobs N] [--timeout SECONDS]          stdin : <id> TAB <l|b> TAB <BTR a> TAB <BTR b>
+    il_equiv.py [--jobs N] [--timeout S]                stdin : <id> TAB <l|b> TAB <BTR a> TAB <BTR b>
                                                         stdout: <id> TAB equiv | diff <model…> | unknown <why>
     il_equiv.py --eval                                  stdin : <id> TAB <state> TAB <BTR>
                                                         stdout: <id> TAB <post line computed by z3 from the ENCODING>  (self-test)
@@ -34,6 +34,8 @@ Observable result compared: err; and when not err: every scalar that is not a li
 — the names the proofs' `Abs`/`Agrees` relations ignore), the final mem and mapped arrays (extensional equality), the address
 `runBTR` continues at, and for each successor address whether a guard for it is enabled (the successor SETS must agree too).
 A temporary that is read before it is written on some path -> unknown.
+Budget per query: z3's deterministic resource limit `rlimit` = 6e6 x S (S = --timeout, default 5: about 5 s of an idle core), so
+that verdicts do not depend on the load of the machine, plus a wall-clock safety net of 6 x S seconds; beyond -> unknown.
 """
 import os
 import re
@@ -303,11 +305,17 @@ class Query:
         self.width = {}            # scalar name -> width (one width per name)
         self.initial = {}          # non-temporary names whose initial value is referred to -> width
         self.accesses = []         # (path condition, address term (64 bits), bytes)
+        self.names = {}            # (sort, term) -> defined name
 
     def define(self, sort, term, hint="t"):
-        self.n += 1
-        s = "%s!%d" % (hint, self.n)
-        self.lines.append("(define-fun %s () %s %s)" % (s, sort, term))
+        # hash-consing: the same term gets the same name, also ACROSS the two BTRs of a pair — whatever the two compute in the
+        # same way (addresses, loaded values, the stored memory) is then syntactically equal and needs no reasoning by z3
+        s = self.names.get((sort, term))
+        if s is None:
+            self.n += 1
+            s = "%s!%d" % (hint, self.n)
+            self.names[(sort, term)] = s
+            self.lines.append("(define-fun %s () %s %s)" % (s, sort, term))
         return s
 
     def bvsort(self, w):
@@ -432,7 +440,8 @@ class Query:
                 if er != FALSE:
                     out.append((b_and(pc, er), "err"))
                     pc = b_and(pc, b_not(er))
-                self.accesses.append((pc, a, n))
+                if (pc, a, n) not in self.accesses:
+                    self.accesses.append((pc, a, n))
                 st = st.copy()
                 mem, mp = st.mem, st.mapped
                 for j, ba in enumerate(self.byte_addrs(a, n)):
@@ -456,7 +465,8 @@ class Query:
                 er = self.define("Bool", er, "e")
                 out.append((b_and(pc, er), "err"))
                 pc = b_and(pc, b_not(er))
-                self.accesses.append((pc, a, n))
+                if (pc, a, n) not in self.accesses:
+                    self.accesses.append((pc, a, n))
                 bs = ["(select %s %s)" % (st.mem, ba) for ba in bas]      # bs[j] = byte at a+j
                 if not self.big:
                     bs = bs[::-1]                                         # most significant first for concat
@@ -707,9 +717,16 @@ def build_pair(big, ba, bb):
 
 # ------------------------------------------------------------------------------------------------ z3
 
+RLIMIT_PER_S = 6000000       # z3 resource units per nominal second (an unloaded core does roughly this much per second)
+WALL_FACTOR = 6              # wall-clock safety net per query = WALL_FACTOR x the nominal timeout
+
+
 def run_z3(script, timeout_s, hard_s):
+    """per query (check-sat): a DETERMINISTIC budget `rlimit` (so that a verdict does not depend on how busy the machine is)
+    and, as a safety net, a wall-clock limit of WALL_FACTOR x timeout_s; per process a hard limit"""
     try:
-        p = subprocess.run([Z3, "-smt2", "-in", "-t:%d" % int(timeout_s * 1000), "-T:%d" % int(hard_s)],
+        p = subprocess.run([Z3, "-smt2", "-in", "rlimit=%d" % int(timeout_s * RLIMIT_PER_S),
+                            "-t:%d" % int(timeout_s * 1000 * WALL_FACTOR), "-T:%d" % int(hard_s)],
                            input=script, capture_output=True, text=True, timeout=hard_s + 30)
         return p.stdout
     except subprocess.TimeoutExpired as ex:
@@ -752,7 +769,7 @@ def solve_scripts(jobs, timeout_s, workers):
             parts.append('(reset)\n(set-option :produce-models true)\n(echo "BEGIN %s")\n' % jid + "\n".join(lines) +
                          '\n(echo "CHECK")\n(check-sat)\n' +
                          ("(get-value (%s))\n" % " ".join(g for _, g in gets) if gets else "") + '(echo "END")\n')
-        out = run_z3("".join(parts), timeout_s, timeout_s * len(chunk) + 20)
+        out = run_z3("".join(parts), timeout_s, timeout_s * WALL_FACTOR * len(chunk) + 20)
         res = {}
         for m in re.finditer(r"BEGIN (\S+)\n(.*?)END\n", out, flags=re.S):
             pre, _, body = m.group(2).partition("CHECK\n")
@@ -845,7 +862,7 @@ def decide_pairs(pairs, timeout_s=5, workers=16, stats=None):
         elif v == "sat":
             keyed[key] = "unknown sat but the model could not be read"
         else:
-            keyed[key] = "unknown z3 gave no answer within %g s" % timeout_s
+            keyed[key] = "unknown z3 gave no answer within its budget (rlimit %d, %g s wall)" % (timeout_s * RLIMIT_PER_S, timeout_s * WALL_FACTOR)
     if stats is not None:
         stats["pairs"] = len(pairs)
         stats["distinct_pairs"] = len(keyed)
